@@ -373,9 +373,10 @@ def run_case(case, seed):
                         bad("fit_leaves_eager_results", "not dask-backed after deferred rotator fit: %s" % nl, stage="rot.fit")
             # (e) the input data stays dask-backed inside the model
             for when in ("input_dask_before", "input_dask_after", "input_dask_after_second_compute"):
-                if model == "OPA" and case["compute"]:
-                    # OPA files the scores of its PCA pre-step under 'input_data' (not the user's data); with compute=True
-                    # those derived scores are computed like every other result
+                if model in ("OPA", "ExtendedEOF+pca") and case["compute"]:
+                    # OPA files the scores of its PCA pre-step under 'input_data', ExtendedEOF (whose container is the
+                    # one of its inner EOF) the delay-embedded matrix built from them - not the user's data; with
+                    # compute=True those derived PCA scores are computed like every other result
                     continue
                 nl = sorted(k for k, v in obs[when].items() if not v)
                 if nl:
